@@ -204,25 +204,26 @@ def r1(ctx: Ctx) -> None:
         st = [x for x in key_loops[0][3] if x[0] == "if"]
         seen = set()
         cur = st[0] if st else None
+        from .common import eq_constants
+
+        def refuses(arm):
+            return len(arm) >= 1 and (arm[0] == ("assert", K_FALSE) or arm[0][0] == "raise")
         while cur is not None:
             cnd = cur[1]
-            if cnd[0] == "cmp" and cnd[1] in ("sne", "notin") and not cur[3]:
-                # 'elif key != K: refuse' with nothing to do for K itself: the refusing arm is the final else
-                pos = mk_not(cnd)
-                seen |= set(pos[3][1]) if pos[1] == "in" and pos[2] == kv else ({pos[2] if pos[3] == kv else pos[3]} if kv in (pos[2], pos[3]) else set())
-                ok = len(cur[2]) >= 1 and (cur[2][0] == ("assert", K_FALSE) or cur[2][0][0] == "raise") and seen == known
-                break
-            if cnd[0] == "cmp" and cnd[1] == "in" and cnd[2] == kv:
-                seen |= set(cnd[3][1])
-            elif cnd[0] == "cmp" and cnd[1] == "seq" and kv in (cnd[2], cnd[3]):
-                seen.add(cnd[2] if cnd[3] == kv else cnd[3])
+            pos = eq_constants(cnd, kv)
+            neg = eq_constants(mk_not(cnd), kv) if pos is None else None
+            if pos is not None:          # 'if key is one of K: handle  else: <rest of the chain>'
+                seen |= pos
+                nxt = cur[3]
+            elif neg is not None:        # 'if key is none of K: <rest of the chain>  else: handle'
+                seen |= neg
+                nxt = cur[2]
             else:
                 break
-            nxt = cur[3]
             if len(nxt) == 1 and nxt[0][0] == "if":
                 cur = nxt[0]
             else:
-                ok = len(nxt) >= 1 and (nxt[0] == ("assert", K_FALSE) or nxt[0][0] == "raise") and seen == known
+                ok = refuses(nxt) and seen == known
                 cur = None
     if not ok:
         ctx.report(fr.where, "reject-unknown-attr-reader", "the reader does not refuse an unknown module attribute (or its key table differs from the documented one)",
@@ -233,7 +234,8 @@ def r1(ctx: Ctx) -> None:
     for lp in _loops(cc, lambda lp: contains(lp[2], "items")):
         kv = lp[1][1][0] if lp[1][0] == "tuple" else None
         for t in top_asserts(lp[3]):
-            if t[0] == "cmp" and t[1] == "in" and t[2] == kv and set(t[3][1]) == ctor_keys:
+            from .common import eq_constants
+            if eq_constants(t, kv) == ctor_keys:
                 ok = True
     if not ok:
         ctx.report(fc.where, "reject-unknown-attr-ctor", "Module.__init__ does not refuse an unknown keyword", lineno=fc.node.lineno)
